@@ -99,6 +99,7 @@ fn prepare_par_result(
     match (left_result, right_result) {
         (SubgraphResult::Succeeded, _) | (_, SubgraphResult::Succeeded) => {
             exec_ctx.last_error_descriptor.meet_par_successed_end();
+            exec_ctx.error_descriptor.enable_error_setting();
             Ok(())
         }
         (SubgraphResult::Failed(err), SubgraphResult::Failed(_)) => Err(err),
